@@ -68,6 +68,10 @@ var splitBindIP = "192.168.1.2"
 // 0.0.0.0:port (set by the scenario body; both mean the wildcard address)
 var zeroBindAddr = false
 
+// zeroBroadcastAddr: clients are built with types.BroadcastAddr{} (the library falls back to
+// 255.255.255.255:60000) instead of an explicit broadcast address
+var zeroBroadcastAddr = false
+
 func mkClient(bind uint16, calls []call, which int) uhppote.IUHPPOTE {
 	return mkClientOn(bind, "0.0.0.0", calls, which)
 }
@@ -88,6 +92,9 @@ func mkClientOn(bind uint16, ip string, calls []call, which int) uhppote.IUHPPOT
 	}
 	if zeroBindAddr && bind != 0 {
 		b = types.BindAddrFrom(netip.Addr{}, bind) // "any address, this port" written with the zero netip.Addr
+	}
+	if zeroBroadcastAddr {
+		return uhppote.NewUHPPOTE(b, types.BroadcastAddr{}, types.ListenAddr{}, T, devices, false)
 	}
 	return uhppote.NewUHPPOTE(b, types.BroadcastAddrFrom(netip.MustParseAddr("192.168.1.255"), 60000), types.ListenAddr{}, T, devices, false)
 }
@@ -146,6 +153,7 @@ func callScenario(name string, bind uint16, calls []call, bound int, discovery b
 
 func callScenarioX(name string, bind uint16, calls []call, bound int, discovery bool, splitBind bool) e1.Scenario {
 	zero := strings.HasSuffix(name, "/zero-bind-addr")
+	zeroBcast := strings.HasSuffix(name, "/default-broadcast-addr")
 	var res []*result
 	var devs []map[string]any
 	var devErr error
@@ -160,6 +168,7 @@ func callScenarioX(name string, bind uint16, calls []call, bound int, discovery 
 	}
 	body := func() {
 		zeroBindAddr = zero
+		zeroBroadcastAddr = zeroBcast
 		res = make([]*result, len(calls))
 		devs, devErr = nil, nil
 		cur := res
@@ -779,6 +788,18 @@ func main() {
 		}
 		scenarios = append(scenarios, callScenario(fmt.Sprintf("discovery-alone/bind=%d", bind), bind, nil, bound, true))
 	}
+	// the client built without a broadcast address (the library's 255.255.255.255:60000 fallback): two
+	// broadcast-path calls, and a broadcast-path call next to discovery
+	for _, bind := range []uint16{0, 60001} {
+		calls := []call{
+			{op: "GetCardByID", args: argsFor("GetCardByID", 0), ctrl: 0, path: "broadcast", delay: 4 * T / 10, client: 0},
+			{op: "GetEvent", args: argsFor("GetEvent", 1), ctrl: 1, path: "broadcast", delay: 2 * T / 10, client: 0},
+		}
+		scenarios = append(scenarios, callScenario(fmt.Sprintf("2calls/bind=%d/broadcast/default-broadcast-addr", bind), bind, calls, bound, false))
+		scenarios = append(scenarios, callScenario(fmt.Sprintf("discovery+call/bind=%d/broadcast/default-broadcast-addr", bind), bind, calls[:1], bound, true))
+	}
+	// the network-free entry points used by two / three goroutines at once (first use in the process)
+	scenarios = append([]e1.Scenario{pureScenario(2), pureScenario(3)}, scenarios...)
 	// listener, discovery and a directed call at the same time through one client
 	for _, bind := range []uint16{0, 60001} {
 		for _, p := range paths {
